@@ -321,6 +321,7 @@ def run_cfg(case):
         shutil.rmtree(root, ignore_errors=True)
     r = ok()
     r.update(evals=n, distinct=n, states=[digest((cfg, s)) for s in states], transitions=n, validated=n,
+             outcome_list=[digest(('pool-state', s)) for s in states],
              viols=[[k, v] for k, v in sorted(viols.items())])
     return r
 
